@@ -10,7 +10,7 @@ from __future__ import annotations
 
 import onnx_ir as ir
 
-from vfpy.world import NAMES, OPTYPES, World
+from vfpy.world import BAD_NAME, NAMES, OPTYPES, SPECIAL_TENSOR_BASE, World
 
 
 def _idx(pool, obj):
@@ -21,7 +21,11 @@ def _idx(pool, obj):
 
 
 class Gen:
-    def __init__(self, rng, w: World, hostile: float, weights: dict | None = None, avoid: set | None = None):
+    def __init__(self, rng, w: World, hostile: float, weights: dict | None = None, avoid: set | None = None,
+                 collaborators: bool = False):
+        # collaborators=True: values may be backed by tensors whose own name setter can reject a name
+        # (proto-backed tensor + a lone-surrogate str; a user tensor class that validates names)
+        self.collaborators = collaborators
         self.rng = rng
         self.w = w
         self.hostile = hostile
@@ -105,7 +109,14 @@ class Gen:
         return out
 
     def name(self):
+        if self.collaborators and self.rng.random() < 0.12:
+            return BAD_NAME
         return self.rng.choice(NAMES)
+
+    def tensor_idx(self, plain):
+        if self.collaborators and self.rng.random() < 0.3:
+            return SPECIAL_TENSOR_BASE + self.rng.randrange(2)
+        return self.rng.choice(plain)
 
     def small(self, lo=-3, hi=5):
         return self.rng.randint(lo, hi)
@@ -115,7 +126,7 @@ class Gen:
         w, rng = self.w, self.rng
         # bootstrap: make sure there is something to edit
         if len(w.values) < 3:
-            return ["val", self.name(), rng.choice([None, None, 0, 1]), rng.randrange(4)]
+            return ["val", self.name(), self.tensor_idx([None, None, 0, 1]), rng.randrange(4)]
         if not w.graphs:
             return self._graph()
         if len(w.nodes) < 2:
@@ -125,7 +136,7 @@ class Gen:
 
     # constructors
     def _val(self):
-        return ["val", self.name(), self.rng.choice([None, None, 0, 1, 2]), self.rng.randrange(4)]
+        return ["val", self.name(), self.tensor_idx([None, None, 0, 1, 2]), self.rng.randrange(4)]
 
     def _node(self):
         rng = self.rng
@@ -404,15 +415,68 @@ class Gen:
         return ["n_name", self.any_n(), self.rng.choice([None, "n", "m", "node_Add_0"])]
 
     def _c_rename(self):
-        k = self.rng.randint(1, 4)
+        rng = self.rng
+        if rng.random() < 0.45:
+            targeted = self._c_rename_initializers()
+            if targeted is not None:
+                return targeted
+        k = rng.randint(1, 4)
         vs = [self.any_v() for _ in range(k)]
-        if self.rng.random() < 0.3:
-            vs.append(self.rng.choice(vs))
-        names = [self.rng.choice([n for n in NAMES if n is not None]) for _ in range(len(vs) if not (self.h() and self.rng.random() < 0.2) else k + 1)]
+        if rng.random() < 0.3:
+            vs.append(rng.choice(vs))
+        names = [self.name() or "z" for _ in range(len(vs) if not (self.h() and rng.random() < 0.2) else k + 1)]
+        return ["c_rename", vs, names]
+
+    def _c_rename_initializers(self):
+        """A rename set that spans the initializers of several graphs; the element that makes the call
+        raise (if any) sits in the LAST graph of the set, after graphs whose part is acceptable."""
+        rng, w = self.rng, self.w
+        per_graph = []
+        for g in w.graphs:
+            try:
+                idxs = [i for i in (_idx(w.values, v) for v in g.initializers.values()) if i is not None]
+            except Exception:  # noqa: BLE001
+                idxs = []
+            if idxs:
+                per_graph.append((g, idxs))
+        if not per_graph:
+            return None
+        rng.shuffle(per_graph)
+        per_graph = per_graph[: rng.randint(1, 3)]
+        vs, names = [], []
+        fresh = iter(["r0", "r1", "r2", "r3", "r4", "r5", "r6", "r7", "r8"])
+        for g, idxs in per_graph:
+            for i in rng.sample(idxs, min(len(idxs), rng.randint(1, 2))):
+                vs.append(i)
+                names.append(next(fresh))
+        if rng.random() < 0.3:  # a swap / cycle among the chosen values
+            cur = [w.values[i].name or "z" for i in vs]
+            names = cur[1:] + cur[:1]
+        if rng.random() < 0.3:  # plus a non-initializer value
+            vs.insert(rng.randrange(len(vs) + 1), self.any_v())
+            names.insert(0, next(fresh))
+            names = names[: len(vs)]
+        if rng.random() < 0.6:
+            g, idxs = per_graph[-1]
+            last = max(j for j, i in enumerate(vs) if i in idxs)
+            others = [k for k, v in g.initializers.items() if _idx(w.values, v) not in vs]
+            kind = rng.randrange(4)
+            if kind == 0:
+                names[last] = ""
+            elif kind == 1 and others:
+                names[last] = rng.choice(others)
+            elif kind == 2 and self.collaborators:
+                names[last] = BAD_NAME
+            else:
+                same = [j for j, i in enumerate(vs) if i in idxs and j != last]
+                if same:
+                    names[last] = names[same[0]]
+                else:
+                    names[last] = ""
         return ["c_rename", vs, names]
 
     def _v_const(self):
-        return ["v_const", self.any_v(), self.rng.choice([None, 0, 1, 2, 3])]
+        return ["v_const", self.any_v(), self.tensor_idx([None, 0, 1, 2, 3])]
 
     def _v_type(self):
         return ["v_type", self.any_v(), self.rng.randrange(4)]
